@@ -1034,3 +1034,41 @@ def memo_key_complete(ctx):
     ctx.covered("memo maps kept in self (looked up and filled in one function): the key contains every parameter the stored value is computed from", n_sites,
                 distinct_keys=["fns:%d" % n_fns, "sites:%d" % n_sites])
     ctx.floor(n_sites, 6, "memo insertion sites (the pattern cache of conforms)", "searcher.rs")
+
+
+def operator_spellings_lex_whole(ctx):
+    """C11-R8: every documented operator spelling, written between two operands after WHERE (with and without blanks around a
+    symbolic one), is lexed as ONE operator lexem carrying that spelling - the lexer (Lexer::new + next_lexem) read by the finite
+    interpreter.  (`!~=` is the one symbolic operator whose proper prefix `!~` is not an operator.)"""
+    import interp
+    import oracles
+    lex = lexer_by_interpretation(ctx)
+    V = interp.V
+    n, bad = 0, []
+    for op, spellings in sorted(oracles.OP_SPELLINGS.items()):
+        for sp in spellings:
+            symbolic = not sp[0].isalpha()
+            forms = ["name from . where size %s 5" % sp] + (["name from . where size%s5" % sp] if symbolic else [])
+            for q in forms:
+                for parts in ([q], q.split(" ")):
+                    try:
+                        got = lex(parts)
+                    except interp.Undecided as e:
+                        bad.append("cannot lex `%s`: %s" % (q, str(e)[:120]))
+                        break
+                    n += 1
+                    tail = got[-3:] if isinstance(got, list) else got
+                    names = [(x.name.split("::")[-1], x.args[0] if x.args else None) for x in tail] if isinstance(tail, list) and all(isinstance(x, V) for x in tail) else tail
+                    want_kind = "Operator" if sp.lower() not in ("like", "notlike", "between", "in") or True else "Operator"
+                    ok = isinstance(names, list) and len(names) == 3 and names[0][1] == "size" and names[2][1] == "5" and names[1][0] == want_kind and str(names[1][1]).lower() == sp.lower()
+                    ctx.obligation(ok)
+                    if not ok:
+                        bad.append("`%s` (%s) ends in the lexems %s, expected size, Operator(%s), 5" % (q, "one argument" if len(parts) == 1 else "shell words", names, sp))
+    ctx.covered("documented operator spellings lexed between two operands (symbolic ones also without blanks; one argument and shell words)", n, distinct_keys=sorted(oracles.OP_SPELLINGS), exhaustive=True)
+    seen = set()
+    for b in bad:
+        k_ = b.split("`")[1] if "`" in b else b
+        if k_ not in seen and len(seen) < 4:
+            seen.add(k_)
+            ctx.violation("lexer/operator-spelling", ctx.where("lexer::Lexer::next_lexem"), "every documented operator spelling is one operator lexem: %s" % b)
+    ctx.floor(n, 60, "operator spellings lexed", "lexer.rs")
